@@ -32,6 +32,12 @@ pub struct Case {
     pub counter: u32,
     pub presence: bool,
     pub memory_store: bool,
+    /// control byte of the authentication request: 0 = 0x03 (enforce), else 0x07 / 0x08
+    #[serde(default)]
+    pub p1: u8,
+    /// further bits of the presence-flags byte handed to authenticate (e.g. 0x04 = UV)
+    #[serde(default)]
+    pub flags: u8,
 }
 
 // ---- raw message oracle
@@ -136,15 +142,26 @@ fn authn<S>(auth: &Authenticator<S, ScriptedUv>, ch: [u8; 32], app: [u8; 32], h:
 where
     S: passkey_authenticator::CredentialStore<PasskeyItem = passkey_types::Passkey> + Send + Sync,
 {
+    authn_p(auth, ch, app, h, counter, u8::from(presence), 0)
+}
+fn authn_p<S>(auth: &Authenticator<S, ScriptedUv>, ch: [u8; 32], app: [u8; 32], h: &[u8], counter: u32, flags: u8, p1: u8) -> Result<AuthOut, String>
+where
+    S: passkey_authenticator::CredentialStore<PasskeyItem = passkey_types::Passkey> + Send + Sync,
+{
     par::catch(|| {
-        let req = AuthenticationRequest { parameter: AuthenticationParameter::EnforceUserPresence, challenge: ch, application: app, key_handle: h.to_vec() };
-        match block_on(U2fApi::authenticate(auth, req, counter, if presence { Flags::UP } else { Flags::empty() })) {
+        let parameter = match p1 {
+            7 => AuthenticationParameter::CheckOnly,
+            8 => AuthenticationParameter::DontEnforceUserPresence,
+            _ => AuthenticationParameter::EnforceUserPresence,
+        };
+        let req = AuthenticationRequest { parameter, challenge: ch, application: app, key_handle: h.to_vec() };
+        match block_on(U2fApi::authenticate(auth, req, counter, Flags::from_bits_truncate(flags))) {
             Err(_) => Err(()),
             Ok(r) => {
                 let sig = r.signature.clone();
                 let (c, p) = (r.counter, u8::from(r.user_presence));
                 let enc = r.encode();
-                if c != counter || p != u8::from(presence) {
+                if c != counter || p != flags {
                     return Ok((vec![], vec![]));
                 }
                 Ok((sig, enc))
@@ -185,14 +202,15 @@ pub fn eval(c: &Case) -> (Vec<Finding>, String) {
                                     let key: ([u8; 32], [u8; 32]) = (x.try_into().unwrap(), y.try_into().unwrap());
                                     // authentication with the same handle and application
                                     let ch2 = pattern(c.challenge ^ 1);
-                                    match authn(&auth, ch2, app, &h, c.counter, c.presence) {
+                                    let fl = u8::from(c.presence) | c.flags;
+                                    match authn_p(&auth, ch2, app, &h, c.counter, fl, c.p1) {
                                         Err(p) => bad("panic-in-authenticate", p),
                                         Ok(Err(())) => bad("authentication-fails", "authentication with the registered key handle and application failed".into()),
                                         Ok(Ok((sig, enc))) => {
                                             if sig.is_empty() {
                                                 bad("counter-or-presence-not-echoed", "response counter/presence differ from the arguments".into());
                                             }
-                                            for (k, d) in check_authenticate(&ch2, &app, c.counter, u8::from(c.presence), &key, &sig, &enc) {
+                                            for (k, d) in check_authenticate(&ch2, &app, c.counter, fl, &key, &sig, &enc) {
                                                 bad(k, d);
                                             }
                                         }
@@ -200,7 +218,7 @@ pub fn eval(c: &Case) -> (Vec<Finding>, String) {
                                     // unknown key handle fails
                                     let mut unknown = h.clone();
                                     unknown.push(0x99);
-                                    match authn(&auth, ch2, app, &unknown, c.counter, c.presence) {
+                                    match authn_p(&auth, ch2, app, &unknown, c.counter, fl, c.p1) {
                                         Err(p) => bad("panic-in-authenticate", p),
                                         Ok(Ok(_)) => bad("unknown-key-handle-accepted", "authentication with an unknown key handle succeeded".into()),
                                         Ok(Err(())) => {}
@@ -459,11 +477,11 @@ pub fn cases(tier: Tier) -> Vec<Case> {
     let counters = [0u32, 1, 0x8000_0000, 0xFFFF_FFFF];
     for hl in 0..=255usize {
         let k = hl % 4;
-        v.push(Case { challenge: k as u8, application: ((k + 1) % 4) as u8, handle_len: hl, counter: counters[k], presence: hl % 2 == 0, memory_store: hl % 3 == 0 });
+        v.push(Case { challenge: k as u8, application: ((k + 1) % 4) as u8, handle_len: hl, counter: counters[k], presence: hl % 2 == 0, memory_store: hl % 3 == 0, p1: [0u8, 7, 8][hl % 3], flags: [0u8, 4][(hl / 3) % 2] });
         if tier == Tier::Thorough {
             for memory_store in [false, true] {
                 for presence in [false, true] {
-                    v.push(Case { challenge: ((k + 2) % 4) as u8, application: ((k + 2) % 4) as u8, handle_len: hl, counter: counters[(k + 1) % 4], presence, memory_store });
+                    v.push(Case { challenge: ((k + 2) % 4) as u8, application: ((k + 2) % 4) as u8, handle_len: hl, counter: counters[(k + 1) % 4], presence, memory_store, p1: [0u8, 7, 8][(hl / 2) % 3], flags: 0 });
                 }
             }
         }
@@ -473,7 +491,11 @@ pub fn cases(tier: Tier) -> Vec<Case> {
             for counter in counters {
                 for presence in [false, true] {
                     for memory_store in [false, true] {
-                        v.push(Case { challenge, application, handle_len: 32, counter, presence, memory_store });
+                        for p1 in [0u8, 7, 8] {
+                            for flags in [0u8, 4] {
+                                v.push(Case { challenge, application, handle_len: 32, counter, presence, memory_store, p1, flags });
+                            }
+                        }
                     }
                 }
             }
@@ -508,7 +530,7 @@ pub fn run(ctx: &Ctx) -> Result<Run, String> {
     let n = cs.len() as u64;
     let mut run = Run::from_stats(
         "model_checking",
-        "single register+authenticate+unknown-handle runs for every key-handle length 0..255 and the product challenge/application patterns(4x4, incl. equal) x counter {0,1,2^31,2^32-1} x presence x {RefStore, Arc<Mutex<MemoryStore>>}; response structs with certificate/handle/signature lengths the authenticator itself never produces encoded directly; every well-formed extended-length request frame (register, authenticate with P1 in {3,7,8} and every handle length, version; with and without trailing Le) parsed back; BFS over sequences of register(h in 2, app in 2) / authenticate(h in 2 + unknown, app in 2) on both stores. Signatures are verified with p256 over the byte strings of the U2F raw-message specification; raw encodings are parsed by the harness",
+        "single register+authenticate+unknown-handle runs for every key-handle length 0..255 and the product challenge/application patterns(4x4, incl. equal) x counter {0,1,2^31,2^32-1} x presence x control byte {0x03, 0x07, 0x08} x further flag bits {none, UV} x {RefStore, Arc<Mutex<MemoryStore>>}; response structs with certificate/handle/signature lengths the authenticator itself never produces encoded directly; every well-formed extended-length request frame (register, authenticate with P1 in {3,7,8} and every handle length, version; with and without trailing Le) parsed back; BFS over sequences of register(h in 2, app in 2) / authenticate(h in 2 + unknown, app in 2) on both stores. Signatures are verified with p256 over the byte strings of the U2F raw-message specification; raw encodings are parsed by the harness",
         true,
         stats,
     );
